@@ -124,9 +124,10 @@ class Observer:
         try:
             r = f(*pos, **kw)
             obs["kind"] = "run"
-            obs["ret"] = getattr(r, "name", repr(r))
+            obs["ret"] = getattr(r, "name", repr(r))[:60]
         except BaseException as exc:  # noqa
             obs["kind"] = classify(exc, bw.exc.values())
+            obs["ret"] = ""
             obs["err"] = describe(exc)
             if obs["kind"] == "internal":
                 obs["tb"] = [f"{a}:{b}" for a, b in tb_files(exc.__traceback__)][-4:]
